@@ -112,6 +112,13 @@ GridReasons(r) ==
          R({r.ps[k] : k \in 1..Len(r.ps)} = P /\ Len(r.ps) = Cardinality(P) /\ Len(r.offs) = Len(r.ps), "HARNESS-PRECONDITION")
          \cup R(\A k \in 1..Len(r.ps) : r.ps[k] \in P => r.offs[k] = Offset(r.ps[k], r.size), "offset-value")
          \cup R({r.offs[k] : k \in 1..Len(r.offs)} = 0..(Content(r.size) - 1), "offset-not-bijective")
+    [] r.f = "offset_at" ->
+         (* round 3: "For every grid size, the linear offset of a position ..." on sizes far beyond the enumerated
+            ones (strides > 2^16); single positions, the position set is not enumerated *)
+         R(Len(r.offs) = Len(r.ps) /\ Len(r.ps) > 0
+           /\ \A k \in 1..Len(r.ps) : \A i \in 1..r.N : r.ps[k][i] \in 0..(r.size[i] - 1), "HARNESS-PRECONDITION")
+         \cup R(\A k \in 1..Len(r.ps) : r.offs[k] = Offset(r.ps[k], r.size), "offset-value")
+         \cup R(\A k, k2 \in 1..Len(r.ps) : r.offs[k] = r.offs[k2] => r.ps[k] = r.ps[k2], "offset-not-bijective")
     [] r.f = "at" ->
          LET g == SrcGrid(r.gsize, r.gen)
              Opt(k, some, val) == IF some[k] = 1 THEN <<val[k]>> ELSE <<>>
